@@ -105,6 +105,20 @@ func vfC16Reference(c *vfC16Case) (e vfC16Expect) {
 				return vfC16Expect{Err: true, Source: "path"}
 			}
 
+			// the identifier of the path counts, but "with strict
+			// server-name checking a name outside the configured domain is
+			// rejected" holds for these requests as for all others
+			if c.Strict && c.ServerName != "" {
+				switch vfC16NameClass(c) {
+				case "outside":
+					vfC16.Class("path_id_with_name_outside_domain_strict")
+
+					return vfC16Expect{Err: true, Source: "sni"}
+				case "unclear":
+					return vfC16Expect{Ambiguous: true, Source: "path"}
+				}
+			}
+
 			return vfC16Expect{ID: strings.ToLower(segs[1]), Source: "path"}
 		default:
 			return vfC16Expect{Err: true, Source: "path"}
@@ -142,6 +156,32 @@ func vfC16Reference(c *vfC16Case) (e vfC16Expect) {
 	}
 
 	return vfC16Expect{Source: "none"}
+}
+
+// vfC16NameClass says where the client's server name lies relative to the
+// configured one: "inside" (equal, or one label under it), "outside" (not
+// under it at all), or "unclear" (under it by more than one label, an empty
+// label, or differing from it in letter case only -- the statement does not
+// say which of the two these are).
+func vfC16NameClass(c *vfC16Case) (class string) {
+	s, cn := c.ServerName, c.CliName
+	switch {
+	case cn == s:
+		return "inside"
+	case c.mixedDom:
+		return "unclear"
+	case strings.HasSuffix(cn, "."+s):
+		label := cn[:len(cn)-len(s)-1]
+		if label == "" || strings.Contains(label, ".") {
+			return "unclear"
+		}
+
+		return "inside"
+	case strings.EqualFold(cn, s) || strings.HasSuffix(strings.ToLower(cn), "."+strings.ToLower(s)):
+		return "unclear"
+	default:
+		return "outside"
+	}
 }
 
 var vfC16IDs = []string{
